@@ -3,6 +3,7 @@ import concurrent.futures
 import json
 import os
 
+import ext.keyzoo
 import ext.pem
 import gen
 import mockca
@@ -28,6 +29,7 @@ FINISH = dict(
          "the DER back; Spec.C15.roundTripOk judges (DER before, DER after KeyPair::from_pem, text); "
          "from_der o private_key_to_der and every re-serialisation compared by equality.",
 )
+FINISH["rule"] += ext.keyzoo.RULE
 
 WIDTH = {"ecdsa-p256": 32, "ecdsa-p384": 48, "ecdsa-p521": 66}
 ALG = {"rsa2048": "RS256", "rsa4096": "RS256", "ecdsa-p256": "ES256", "ecdsa-p384": "ES384",
@@ -50,6 +52,7 @@ def worker(args):
             sg = h.call({"op": "sign", "pem": k["pem"], "alg": ALG[kt], "msg_hex": msg})
             rt = h.call({"op": "roundtrip", "pem": k["pem"]})
             out.append({"type": kt, "k": k, "msg": msg, "sig": sg, "rt": rt})
+            ext.keyzoo.more_sigs(h, out[-1], i)
     finally:
         h.close()
     return out
@@ -64,6 +67,7 @@ def run(ctx):
     vlib.build_acmed()
     gen.gen_tables()
     quick = ctx.quick()
+    ext.keyzoo.QUICK = quick
     plan = {"ecdsa-p256": 2000, "ecdsa-p384": 1200, "ecdsa-p521": 800, "ed25519": 2000, "ed448": 1500,
             "rsa2048": 20, "rsa4096": 4} if quick else \
            {"ecdsa-p256": 30000, "ecdsa-p384": 30000, "ecdsa-p521": 30000, "ed25519": 30000, "ed448": 30000,
@@ -185,6 +189,7 @@ def check(ctx, items):
             ctx.violation("%s key does not survive the PEM/DER round trip: %s" % (kt, rt), robj)
     h.close()
     ext.pem.extend_c15(ctx, good)
+    ext.keyzoo.extend_c15(ctx, None, good, ctx.quick())
     ctx.traces += len(good)
     for kt in ("ecdsa-p521", "ed25519", "rsa2048"):
         for it in good:
@@ -201,6 +206,10 @@ def replay(ctx):
     h = mockca.Helper()
     if obj.get("kind") == "pem":
         rc = ext.pem.replay_c15(obj, h)
+        h.close()
+        return rc
+    if obj.get("kind") == "keyzoo":
+        rc = ext.keyzoo.replay_c15(obj, h)
         h.close()
         return rc
     k = h.call({"op": "key_info", "pem": obj["key_pem"]})
